@@ -23,6 +23,15 @@ struct Qv { double v, s; };
 
 // generic path judge: A, B = values at d = -1e-3, +1e-3; pts = values at DS
 // returns: 0 held, 1 violated (band), 2 violated (non-finite), -1 inconclusive
+// Uncertainties contain |a1L| and |a2L| and are V-shaped where these cross zero anywhere on the path: the chord criterion does not apply to them, but a
+// step at the special point does show - values at d = 0, +-1e-13, +-1e-12 further apart than 1% of the magnitude (a continuous function moves by
+// slope x 1e-12 there; a zero crossing of a part in between is a kink, not a step)
+static double jump_at_zero(const Qv& A, const Qv& B, const std::vector<Qv>& pts) {
+   const double mag = std::max({std::fabs(A.v), std::fabs(B.v), A.s, B.s});
+   double lo = 1e300, hi = -1e300;
+   for (int k = 0; k < 5; ++k) { lo = std::min(lo, pts[k].v); hi = std::max(hi, pts[k].v); }   // DS[0..4] = 0, +-1e-13, +-1e-12
+   return mag > 0 ? (hi - lo) / mag : 0;
+}
 static int judge_path(const Qv& A, const Qv& B, const std::vector<Qv>& pts, double& worst_dev, double& worst_d, double& worst_val) {
    worst_dev = 0; worst_d = 0; worst_val = 0;
    for (const Qv& p : pts) if (!std::isfinite(p.v)) { worst_val = p.v; return 2; }
@@ -143,7 +152,12 @@ static void thdm_base(vh::Rng& r, int maxclasses) {
          double dev, dd, val; const int res = judge_path(A[t], B[t], pts[t], dev, dd, val);
          const std::string cell = std::string("THDM|") + TN[t] + "|" + p.first;
          if (res == -1) { out->count(std::string("inconclusive-path(>20% change):THDM:") + TN[t]); continue; }
-         if (t >= 9 && t <= 11 && res != 2) { out->cell(cell + "(finite)", 0, nullptr); continue; }   // |a1L|, |a2L| inside: V-shaped at zero crossings; continuity follows from the parts (composition: C18)
+         if (t >= 9 && t <= 11 && res != 2) {
+            const double jmp = jump_at_zero(A[t], B[t], pts[t]);
+            out->cell(cell + "(finite,no-step)", jmp, nullptr);
+            if (jmp > 0.01) { J w = cb; w.str("class", p.first).str("quantity", TN[t]).d("m0", m0).d("step_of_magnitude", jmp).str("near_bosonic", mech.bos).str("near_fermionic", mech.ferm);
+               out->fail(!mech.bos.empty() ? "C11:THDM:2LB:" + mech.bos : (!mech.ferm.empty() ? "C11:THDM:2LF:" + mech.ferm : std::string("C11:THDM:") + TN[t] + ":step:" + p.first), std::string(TN[t]) + " along " + p.first + ": step of " + vh::num(jmp) + " of the magnitude at d=0", w); }
+            continue; }   // |a1L|, |a2L| inside: V-shaped at zero crossings; continuity follows from the parts (composition: C18)
          if (res == 3) { out->count(std::string("continuous-with-kink(allowed):THDM:") + TN[t]); out->cell(cell + "(kink)", 0, nullptr); continue; }
          J w = cb; w.str("class", p.first).str("quantity", TN[t]).d("m0", m0).d("worst_deviation_of_magnitude", dev).d("at_d", dd).d("value", val).d("chord_lo", A[t].v).d("chord_hi", B[t].v).str("near_bosonic", mech.bos).str("near_fermionic", mech.ferm);
          out->cell(cell, dev, &w);
@@ -257,7 +271,11 @@ static void mssm_base(vh::Rng& r, int maxpaths) {
       for (int c = 0; c < NM; ++c) {
          double dev, dd, val; const int res = judge_path(A[c], B[c], pts[c], dev, dd, val);
          if (res == -1) { out->count(std::string("inconclusive-path(>20% change):MSSM:") + MN[c]); continue; }
-         if (c >= 12 && c <= 14 && res != 2) { out->cell(std::string("MSSM|") + MN[c] + "|" + t.n + "(finite)", 0, nullptr); continue; }
+         if (c >= 12 && c <= 14 && res != 2) {
+            const double jmp = jump_at_zero(A[c], B[c], pts[c]);
+            out->cell(std::string("MSSM|") + MN[c] + "|" + t.n + "(finite,no-step)", jmp, nullptr);
+            if (jmp > 0.01) { J w = cb; w.str("class", cls).str("quantity", MN[c]).d("x0", x0).d("step_of_magnitude", jmp); out->fail(std::string("C11:MSSM:") + MN[c] + ":step:" + t.n, std::string(MN[c]) + " along " + cls + ": step of " + vh::num(jmp) + " of the magnitude at the special point", w); }
+            continue; }
          if (res == 3) { out->count(std::string("continuous-with-kink(allowed):MSSM:") + MN[c]); out->cell(std::string("MSSM|") + MN[c] + "|" + t.n + "(kink)", 0, nullptr); continue; }
          J w = cb; w.str("class", cls).str("quantity", MN[c]).d("x0", x0).d("worst_deviation_of_magnitude", dev).d("at_d", dd).d("value", val).d("chord_lo", A[c].v).d("chord_hi", B[c].v);
          out->cell(std::string("MSSM|") + MN[c] + "|" + t.n, dev, &w);
